@@ -651,6 +651,10 @@ def r06_20(chk):
                 handled = True
         if chain[-1].orelse and any(isinstance(st, ast.Assign) and norm(st.targets[0]) == rv for st in chain[-1].orelse):
             handled = True
+    # or: the pieces are filtered before the loop
+    for st in walk_no_nested(fn):
+        if isinstance(st, ast.Assign) and norm(st.targets[0]) == rv and isinstance(st.value, (ast.ListComp, ast.GeneratorExp)) and any("strip()" in norm(i_) or "isspace()" in norm(i_) for g_ in st.value.generators for i_ in g_.ifs):
+            handled = True
     # or: the record loop skips blank pieces
     for lp in [x for x in walk_no_nested(fn) if isinstance(x, ast.For)]:
         for iff in [x for x in lp.body if isinstance(x, ast.If)]:
